@@ -1,0 +1,6 @@
+//go:build !verif
+
+package ptracer
+
+// hook of the verification harness: a no-op unless built with the verif tag
+func verifEvent(pgid int, kind string, pid int, arg int) {}
